@@ -367,7 +367,7 @@ PROPS = {
         "assumptions": [],
     },
     "C16": {
-        "src": "c16", "engine": "rc", "level": "fault_enumeration", "leaks": True,
+        "src": "c16", "engine": "rc", "level": "fault_enumeration", "leaks": True, "parallel_fixed": True, "fixed_timeout": 3000,
         "extra_link": ["-Wl,--wrap=malloc", "-Wl,--wrap=calloc", "-Wl,--wrap=realloc", "-Wl,--wrap=strdup", "-Wl,--wrap=strndup"],
         "replay_timeout": 900,
         "technique": "fault enumeration: link-time allocator interposition, every k-th allocation of every scenario fails (alone and with all later ones) in a forked child under ASan + LeakSanitizer; scenario contents partly generated by rapidcheck",
